@@ -1,7 +1,7 @@
 (* C14 — property theorems only.  Statements are full; proofs are [exact lemma]. *)
 From Coq Require Import List Arith NArith Bool.
 From LE Require Import Pool.Assoc Pool.TxList Pool.TxListProofs Pool.TxPool Pool.TxPoolProofs.
-From LE Require Import Conc.RWMutex Conc.Skeleton Conc.Progress Gen.Skeletons Conc.Instances.
+From LE Require Import Conc.RWMutex Conc.Skeleton Conc.Progress Conc.Atomic Gen.Skeletons Conc.Instances.
 Import ListNotations.
 Local Open Scope N_scope.
 
@@ -64,6 +64,18 @@ Theorem C14_pool_ops_never_block :
   (forall progs, Forall (fun p => In p pool_all) progs ->
      forall c t l m k, reachable (init progs) c -> In t c -> stack t = Acq l m :: k -> exists c', step c c').
 Proof. exact (conj pool_api_progress (conj pool_all_progress pool_lock_waiters_live)). Qed.
+
+(* SCOPE OF C14_inv: it is proved for the state machine in which Add, Remove and every list operation is ONE atomic step.
+   That is the implementation's state machine only while each of these methods is a single critical section of its
+   object's lock, checks and mutation together.  An Add split into "check under the read lock / verifier call with no
+   lock / insert under the write lock using the earlier decision" is a DIFFERENT machine (two steps with a stale flag):
+   two overlapping Adds then both skip the eviction and the pool holds MaxTransactions+1 - C14_inv says nothing about it.
+   The tie is this obligation on the skeletons regenerated from the source: every method of a lock-owning type of the
+   listed files (the pool, the sender list, the block cache, the certificate pool, the emitter, the staged store) enters
+   its own lock at most once on every path (Conc/Atomic.v). *)
+Theorem C14_operations_are_single_critical_sections :
+  forallb (fun x => single_section (snd (fst x)) (snd x)) atomic_ops = true.
+Proof. exact atomic_ops_single_section. Qed.
 
 (* the pre-fix shape of Add (Lock, then RLock of the same mutex in evictUnprocessable) is a reachable deadlock *)
 Theorem C14_add_self_deadlock_refuted : exists c, reachable (init [add_unsafe]) c /\ stuck c.
